@@ -34,8 +34,10 @@ def cases(tier, seed):
     out = []
     for c in C26.cases(tier, seed):
         c = dict(c)
-        if tier == "thorough" and c["k"] == 3 and c["grid"] == "rect_seed":
-            continue  # 36 schedules per 3-constraint system: the seed grid is covered for k<=2 (see bounds)
+        if tier == "thorough" and c["k"] == 3 and not (c["grid"] == "uniform" or (c["grid"] == "rect_distinct" and c["ax"] == 0 and c["tmpl"] in (0, 3))):
+            continue  # 36 schedules per 3-constraint system: non-uniform grids are covered completely for k<=2 (see bounds)
+        if tier == "thorough" and c["with_c"] and (c["grid"] == "rect_seed" or c["tmpl"] % 2):
+            continue  # 4 objects = 24 object orders: every second template, two grids
         c["conf"] = c["k"] <= 1 and not c["with_c"] and c["tmpl"] in CONF_TEMPLATES
         out.append(c)
     return out
@@ -47,7 +49,7 @@ def bounds(tier, seed):
     b = C26.bounds(tier, seed)
     b["schedules"] = "all permutations of the object list (volume included: 3! / 4!) x all distinct permutations of the constraint list"
     if tier == "thorough":
-        b["note"] = "3-constraint systems on grids uniform and rect_distinct; rect_seed for <=2 constraints"
+        b["note"] = "3-constraint systems: uniform grid (all axes, all templates) and rect_distinct (axis 0, templates 0 and 3); all grids for <=2 constraints; 4-object systems (<=2 constraints) on uniform and rect_distinct, every second template"
     b["place_objects_conformance"] = "systems with <=1 entry on templates 0 and 3: original and fully reversed lists through place_objects"
     return b
 
